@@ -35,7 +35,7 @@ MUTATIONS = [
     ("fit: sample counter reset to 1", "changed constant", B,
      "        self.sample_counter_ = 0\n        self.labels_ = np.zeros", "        self.sample_counter_ = 1\n        self.labels_ = np.zeros"),
     ("fit: the per-category counters are not reset (F03 / F34 re-introduced)", "dropped statement", B,
-     "        self.weight_sample_counter_ = []\n        self.sample_counter_ = 0\n", "        self.sample_counter_ = 0\n"),
+     "        self.weight_sample_counter_ = []\n        self.sample_counter_ = 0\n        self.labels_ = np.zeros", "        self.sample_counter_ = 0\n        self.labels_ = np.zeros"),
     ("fit: W is not reset", "dropped statement", B,
      "        self.W: List[np.ndarray] = []\n", "        pass\n"),
     ("fit: one epoch too many", "off-by-one", B,
